@@ -85,16 +85,12 @@ def mvccStep (d : Db) (line : String) : Db × String :=
   | ["commit", id, cts] =>
     match id.toNat?, cts.toNat? with
     | some id, some cts =>
-      -- an end-of-transaction marker is written iff no entry carries its own version
-      let marker := match d.findTxn id with
-        | some t => (t.pending ++ t.dups).all (·.ver == 0)
-        | none => false
       let (d, r) := d.commit id cts
-      match r with
-      | .ok ts => ((if marker then { d with markerTs := max d.markerTs ts } else d), s!"ok {ts}")
-      | .noop => (d, "ok noop")
-      | .conflict => (d, "conflict")
-      | .err s => (d, s)
+      (d, match r with
+        | .ok ts => s!"ok {ts}"
+        | .noop => "ok noop"
+        | .conflict => "conflict"
+        | .err s => s)
     | _, _ => (d, "bad-op")
   | ["discard", id] =>
     match id.toNat? with
@@ -190,7 +186,7 @@ def mvccStep (d : Db) (line : String) : Db × String :=
       s!"L{lvl}:" ++ String.join (gs.map (fun g => "[" ++ String.intercalate "," (g.map toString) ++ "]")))))
   | ["dropall"] =>
     let o := if d.opts.inMemory then { d.opts with threshold := 2147483647 } else d.opts
-    ({ d with lsm := Lsm.init d.opts.maxLevels, opts := o, markerTs := 0 }, "ok")
+    ({ d with lsm := Lsm.init d.opts.maxLevels, opts := o }, "ok")
   -- Close (its memtable flush arrives as a separate `flush` line before this one) + Open
   | "reopen" :: _ =>
     if d.opts.inMemory then (d, "err:inmem") else
